@@ -111,8 +111,9 @@ pub struct RefModel<'a> {
 
 impl<'a> RefModel<'a> {
     fn apply(&self, st: &mut RefState, i: usize, cmds: Vec<RCmd>) {
-        for c in cmds {
+        for c in crate::s2::script::flat(cmds) {
             match c {
+                RCmd::Bcast(..) => unreachable!(),
                 RCmd::Send(d, m) => {
                     let env = Envelope { src: Id::from(i), dst: d, msg: &m };
                     if let Some(h) = rec_out(&self.sys.hist, &st.hist, env) {
@@ -171,7 +172,8 @@ impl<'a> RefModel<'a> {
             if d < n && !st.down[d] {
                 let eff = self.sys.tables[d].eval_msg(Id::from(d), &st.actors[d], Id::from(s), &m);
                 let touched = eff.new_state.is_some();
-                if !st.net.is_ordered() && !touched && eff.cmds.is_empty() {
+                // (an empty broadcast emits nothing)
+                if !st.net.is_ordered() && !touched && crate::s2::script::flat(eff.cmds.clone()).is_empty() {
                     continue; // changes nothing: no transition on unordered networks
                 }
                 let mut nx = st.clone();
